@@ -18,11 +18,11 @@ import (
 // ---- job ---------------------------------------------------------------------------------------------------------
 
 type discAdv struct {
-	From int   `json:"from"`
-	To   int   `json:"to"`
+	From int    `json:"from"`
+	To   int    `json:"to"`
 	T    string `json:"t"`   // "M" | "Q" | "R"
-	Tag  int   `json:"tag"`  // the id the tag is bound to
-	View []int `json:"view"`
+	Tag  int    `json:"tag"` // the id the tag is bound to
+	View []int  `json:"view"`
 }
 
 type discCase struct {
@@ -37,6 +37,9 @@ type discCase struct {
 	Seed       int64     `json:"seed"`
 	Policy     string    `json:"policy"` // "random" | "starve:<id>" | "lifo"
 	IntervalUs int       `json:"interval_us"`
+	// IDMap maps the identifiers used in this case (and in the recorded trace) to the real 16-bit identifiers the code runs
+	// with; it must preserve the order (views are sorted by the code). Absent: identity.
+	IDMap map[string]int `json:"idmap"`
 }
 
 type discJob struct {
@@ -50,6 +53,8 @@ type discWire struct {
 }
 
 type discRun struct {
+	real   map[int]int
+	abs    map[int]int
 	c      discCase
 	topic  []byte
 	tagOf  map[string]int
@@ -94,9 +99,23 @@ func (r *discRun) decode(b []byte) (t string, tag int, view []int) {
 		tag = id
 	}
 	for i := 33; i+1 < len(b); i += 2 {
-		view = append(view, int(b[i])|int(b[i+1])<<8)
+		view = append(view, r.toAbs(int(b[i])|int(b[i+1])<<8))
 	}
 	return
+}
+
+func (r *discRun) toAbs(re int) int {
+	if a, ok := r.abs[re]; ok {
+		return a
+	}
+	return -re - 1
+}
+
+func (r *discRun) toReal(a int) int {
+	if re, ok := r.real[a]; ok {
+		return re
+	}
+	return a
 }
 
 func (r *discRun) logOut(from int, to []int, data []byte) {
@@ -133,12 +152,19 @@ func discExec(t int, c discCase) []obj {
 		isByz[b] = true
 	}
 	all := append(append([]int{}, c.Members...), c.NonMembers...)
+	r.real, r.abs = map[int]int{}, map[int]int{}
 	for _, id := range all {
-		r.tagOf[string(discTag(r.topic, id))] = id
+		re := id
+		if v, ok := c.IDMap[fmt.Sprint(id)]; ok {
+			re = v
+		}
+		r.real[id] = re
+		r.abs[re] = id
+		r.tagOf[string(discTag(r.topic, re))] = id
 	}
 	var membership []uint16
 	for _, m := range c.Members {
-		membership = append(membership, uint16(m))
+		membership = append(membership, uint16(r.real[m]))
 		if !isByz[m] {
 			r.honest[m] = true
 		}
@@ -159,7 +185,7 @@ func discExec(t int, c discCase) []obj {
 			}
 		}
 		members[m] = &discovery.Member{
-			Membership: membership, ID: uint16(m), Logger: scripted.Logger{},
+			Membership: membership, ID: uint16(r.real[m]), Logger: scripted.Logger{},
 			Broadcast: func(msg []byte) {
 				r.logOut(m, others, msg)
 				foMu.Lock()
@@ -169,7 +195,7 @@ func discExec(t int, c discCase) []obj {
 				}
 				foMu.Unlock()
 			},
-			Send:      func(msg []byte, to uint16) { r.logOut(m, []int{int(to)}, msg) },
+			Send: func(msg []byte, to uint16) { r.logOut(m, []int{r.toAbs(int(to))}, msg) },
 		}
 	}
 	deadline := time.Duration(c.DeadlineMs) * time.Millisecond
@@ -202,7 +228,7 @@ func discExec(t int, c discCase) []obj {
 			err := members[m].Synchronize(ctx, func(list []uint16) {
 				l := make([]int, len(list))
 				for i, x := range list {
-					l[i] = int(x)
+					l[i] = r.toAbs(int(x))
 				}
 				r.log(obj{"e": "done", "m": m, "list": l})
 			}, r.topic, c.E, interval)
@@ -233,7 +259,7 @@ func discExec(t int, c discCase) []obj {
 					r.log(obj{"e": "panic", "m": to, "what": fmt.Sprint(p)})
 				}
 			}()
-			members[to].HandleMessage(uint16(from), data)
+			members[to].HandleMessage(uint16(r.toReal(from)), data)
 		}()
 	}
 	for nRet < len(c.Starters) && time.Now().Before(hard) {
@@ -289,7 +315,11 @@ func discExec(t int, c discCase) []obj {
 			x := adv[0]
 			adv = adv[1:]
 			if r.honest[x.To] {
-				deliver(x.From, x.To, discEncode(x.T, discTag(r.topic, x.Tag), x.View), true)
+				rv := make([]int, len(x.View))
+				for i, v := range x.View {
+					rv[i] = r.toReal(v)
+				}
+				deliver(x.From, x.To, discEncode(x.T, discTag(r.topic, r.toReal(x.Tag)), rv), true)
 			}
 		}
 		select {
